@@ -13,19 +13,26 @@ CHECKS = {
   text="Lean theorems about pkg/database operations decomposed into the atomic steps the code performs (write: precommit with the "
        "preconditions evaluated inside the s.mutex critical section after WaitForIndexingUpto(last precommitted) ; batch commit ; wait "
        "indexed. read: c := committed ; wait idxTs >= c ; one observation of the index at any ts in [c, idxTs]; Get through a reference: two "
-       "observations; index compaction: the index is reopened from an older dump while the WaitForIndexingUpto watcher keeps its value), the "
+       "observations; GetAll: snapshot step, then ONE STEP PER KEY reading the index the code passes to d.get (extracted call-site fact "
+       "Gen.dbGetAllLooksUpInSnapshot; Scan/ZScan facts likewise), return step; index compaction: the index is reopened from an older dump while the WaitForIndexingUpto watcher keeps its value), the "
        "model records call/return step numbers itself. For EVERY schedule in which no index compaction completes: precondition_iff (applied with id n <=> "
        "entry n of the log and all preconditions hold on LogView(n-1); rejected => they fail on the version observed), "
        "read_sees_completed_writes, linearizable = (R1) results are those of the sequential KV object at the operation's version, (R2) "
-       "versions respect real-time order, (LP) the explicit linearization points lie inside the call intervals. Witnesses of the negation: ref_get_torn (Get through a "
+       "versions respect real-time order, (LP) the explicit linearization points lie inside the call intervals; multi_key_read_one_instant (whatever a read answers, incl. "
+       "the decomposed GetAll with commits/indexing between its lookups, is the sequential answer on ONE version v inside its interval; "
+       "getall_needs_the_snapshot: with lookups on the live index it is false). Witnesses of the negation: ref_get_torn (Get through a "
        "re-pointed reference), compaction_breaks_read_after_write and compaction_breaks_conditional_write (a completed CompactIndex throws the "
        "index back: reads miss completed writes, a conditional write is applied although its precondition is false) — all three reproduced "
        "on the real database. "
        "Tie: real database.NewDB, 3..6 goroutines issuing Set / multi-key Set / ExecAll / Delete / SetReference / ZAdd / Get (SinceTx, AtTx, "
        "AtRevision) / GetAll / Scan / ZScan / History / Count and conditional writes with flush/compaction running, logical call/return "
-       "timestamps; writes (with preconditions, in id order) and reads (at the version assigned by the oracle) are replayed through the Lean "
-       "driver. Oracle (model independent): exact linearizability check using the returned tx ids (version windows + greedy monotone "
-       "assignment), conditional-write rule, a WGL search without ids on the small histories, seeded non-linearizable histories as self-test.",
+       "timestamps; plus group probes (writers rewrite whole groups of 40..280 keys with one transaction per round via multi-key Set / "
+       "ExecAll incl. sorted-set entries / multi-key Delete / new keys in bunches; readers loop over GetAll, Scan, ZScan, Count, History over the "
+       "groups); writes (with preconditions, in id order) and reads (at the version assigned by the oracle) are replayed through the Lean "
+       "driver, every GetAll additionally through the step model with the index advanced between snapshot and lookups (c06 getall-steps). Oracle (model independent): exact linearizability check using the returned tx ids (version windows + greedy monotone "
+       "assignment; a multi-key read is ONE operation), the atomic-snapshot oracle (every entry of a multi-key answer has the interval of tx ids at "
+       "which it is the newest version, every missing key the set where it is absent, from the reference log replay: one tx id must lie in all "
+       "of them and in the real-time window; an empty intersection = the answer mixes two transactions), conditional-write rule, a WGL search without ids on the small histories, seeded non-linearizable histories as self-test.",
   note=TB + " Modelled rather than verified: queries are evaluated on one index view (ZScan's two snapshots agree because ZAdd/ExecAll hold the "
        "exclusive db mutex), bound references to future txs answer not-found, Delete is checked by the oracle only (MVCC tx, C05), NoWait "
        "variants are outside the claim; the last order-theoretic step from (R1)+(R2) to an explicit total order is not formalised. Five known-finding signatures (two root causes).",
@@ -163,6 +170,10 @@ CHECKS = {
        "replica_commit_after_primary, primary_commit_within_allowance, reports_bounded. The unqualified sentence 'an altered export is rejected without effect' is FALSE for "
        "the code and is refuted by witness theorems: altered_ts_accepted, altered_txmd_accepted (K3), skip_integrity_ignores_eh, values_stripped_accepted_same_alh, "
        "allowance_survives_discard, buffer_full_rejection_is_reloaded, stale_blroot_breaks_rereplication; altered_header_detected_partial is the proved part (Alh differs ⇒ db.AllowCommitUpto refuses, successor rejected). "
+       "Acknowledgements only cover durable state (Store/ReplicaDisk.lean: the store with its disk — which tx-log records are fsynced, the watermark wait, close/reopen, power loss): ack_covers_only_fsynced_records / ack_on_disk_preserved "
+       "(on a Synced store, after ANY sequence of deliveries of arbitrary bytes, syncs, discards, allowances and power losses, the first `durable` records of the chain — what PrecommittedAlh() reports to the primary, what ReplicateTx returned for, what WaitForTx lets pass — are committed or FSYNCED live tx-log records, committed ≤ durable ≤ in-memory precommitted; a discard has to recede the watermark for this), wait_passes_iff_within_watermark, "
+       "restart_after_full_sync_keeps_ack_on_disk, acked_prefix_survives_crash_partial (a power loss keeps the acknowledged prefix when no discarded record lies in the fsynced log), replica_reports_within_held (id-level protocol, all interleavings); refuted for the code as written by "
+       "restart_marks_unfsynced_precommit_durable (Close flushes, Open marks everything re-loaded durable) and discarded_record_shadows_acked_after_crash (Open re-loads the discarded tx in place of the acknowledged one). "
        "Tie: two real embedded stores under random histories (tx metadata, kv metadata, empty values, many entries, v0/v1, embedded values, values truncated by TruncateUptoTx) "
        "and delivery schedules (in order, concurrent out-of-order within MaxActiveTransactions, duplicates, future ids, retries, close/reopen, discards, external allowance, Synced with "
        "explicit Sync), an alteration stream over every byte class of the export (~70 classes, flips, coherent re-encodings, cuts, trailer variants), every call replayed on the Lean "
@@ -170,11 +181,16 @@ CHECKS = {
        "is blocked in Set, ExportTxByID answers and the primary's commit point compared with the ack model, replica 0's store followed by the byte-level model. "
        "Oracle (model-independent): replica vs primary tx by tx (ExportTx bytes, headers, Alh, ReadTx entries, values, Get after indexing, DualProofs of the replica verified "
        "against the primary's states), rejected ⇒ state digest unchanged, accepted altered ⇒ classified, Set returns only after syncAcks replicas informed, replica committed ≤ primary committed, "
-       "a copy of a Synced replica's directory re-opens with the reported precommit. The transient back-pressure answer ErrMaxConcurrencyLimitExceeded (Tx holder pool empty, timing dependent) is repeated by the harness and only counted: it is neither compared with the model nor a rejection.",
+       "a copy of a Synced replica's directory re-opens with the reported precommit; "
+       "acknowledgement durability (c07ack.go): families of FORKED primaries, a Synced replica on the crash-simulating file system (internal/crashfs, syncer off), ReplicateTx left pending on goroutines / Sync / AllowCommitUpto / "
+       "DiscardPrecommittedTxsSince + switch of primary / Close+Open / power loss in scripted and random order; after every step every acknowledgement (PrecommittedAlh(), returned ReplicateTx calls, passing WaitForTx) must lie between committed and in-memory "
+       "precommitted, name the delivered tx, have its record in the FSYNCED part of the tx log, and be held (same Alh, same export bytes) by a store opened on the power-loss image; the same steps run on the disk model (watermark value, its Alh, the wait outcome, the state after a crash). "
+       "Liveness: every call of the code under test runs under a watchdog (20 s): a call that does not return is the oracle failure C07:<api>:hang with the operation trace as replay and abandons the scenario. The transient back-pressure answer ErrMaxConcurrencyLimitExceeded (Tx holder pool empty, timing dependent) is repeated by the harness and only counted: it is neither compared with the model nor a rejection.",
   note=TB + " Modelled rather than verified: aht.RootAt is replaced by its specification mth (C08 aht_root); one ReplicateTx call is one atomic step (a call that must wait for tx ID-1 is the "
        "outcome 'blocked'; concurrent deliveries are linearised by the harness); entriesByKey is keyed by key (Go: sha256(key)); the pooled Tx's BlRoot is modelled for sequential use of the pool (proof/read calls on the replica between deliveries are not tracked); stale bytes after the re-loaded chain are assumed not to parse as a chaining record; the ack protocol "
        "is modelled on ids only (Alh comparisons of ExportTxByID are in the byte model / oracle); gRPC streaming and the TxReplicator goroutines (pkg/replication) are not modelled: the harness plays "
-       "fetchNextTx by hand. Known findings (8 signatures, all confirmed on the real code) in known_findings.json; the ReplicateTx framing panics (F3) are repaired in /repo (93a231d) and their signature stays armed.",
+       "fetchNextTx by hand. Crash model of the disk theorems: fsync granularity = whole tx-log records, an fsync happens only inside sync() (true for the default buffer/file sizes; the harness also runs small buffers/chunks, oracle only); value logs and the AHT are not in the disk model (the oracle reads values back from the crash image). "
+       "Known findings (14 signatures, all confirmed on the real code) in known_findings.json; the ReplicateTx framing panics (F3) are repaired in /repo (93a231d) and their signature stays armed.",
   technique="Lean 4 proof (invariants over operation sequences and interleavings, collision-explicit hash binding) + differential correspondence on real stores/databases with schedule and alteration streams",
   design="7/C07"),
  "C02": dict(
